@@ -119,6 +119,10 @@ def run_case(case):
         want_ret = ['F'] * max(par, 1) if par else None
       if want_ret is not None:
         check(sorted(res.returned) == want_ret, 'return-values-not-collected', f'{what}: queue.returned = {res.returned}, want {want_ret}')
+        # ... and the end-of-stream the consumer actually saw must already carry all of them
+        if 'stop_args' in info:
+          check(sorted(info['stop_args']) == want_ret, 'end-of-stream-misses-return-values',
+                f'{what}: the consumer\'s StopIteration carried {info["stop_args"]!r}, want {want_ret}')
   elif oc['kind'] == 'stop_after':
     total = len(sequential)
     check('error' not in info, 'unexpected-error', lambda: f'{what}: {info["error"]!r}')
